@@ -8,6 +8,12 @@ import os
 import hashlib
 
 
+# the library's own module-level literal constants: the vocabulary the rules and anchors use (confirmed on the analysed tree; a name that is not listed here and is
+# bound once at module level to a literal is treated as an explaining constant and read through, see Program._inline_explaining_constants)
+NAMED_CONSTANTS = frozenset(["DAEMON_NAME", "NAMESERVER_NAME", "MSG_CONNECT", "MSG_CONNECTOK", "MSG_CONNECTFAIL", "MSG_INVOKE", "MSG_RESULT", "MSG_PING",
+                             "PROTOCOL_VERSION", "_header_format", "_magic_number", "index_page_template"])
+
+
 class AnalysisError(Exception):
     """The analysis itself cannot stand (anchor vanished, unparsable file, unknown construct)."""
 
@@ -90,7 +96,8 @@ class ModuleInfo:
 
 def canonical_spellings(tree):
     """Two spellings that mean the same are given one form before anything is analysed: `x = x op e` becomes `x op= e` (plain names and attributes, arithmetic and
-    bit operators), and a symmetric comparison with the constant on the left (`None is x`, `0 == n`) gets the constant on the right."""
+    bit operators), a symmetric comparison with the constant on the left (`None is x`, `0 == n`) gets the constant on the right, `a > b` / `a >= b` are read as
+    `b < a` / `b <= a`, `not (a in b)` as `a not in b`, annotations are dropped (`x: T = v` is `x = v`), and a module imported under another name gets its own name back."""
     class T(ast.NodeTransformer):
         def visit_Assign(self, node):
             self.generic_visit(node)
@@ -105,8 +112,88 @@ def canonical_spellings(tree):
             if len(node.ops) == 1 and isinstance(node.ops[0], (ast.Eq, ast.NotEq, ast.Is, ast.IsNot)) and isinstance(node.left, ast.Constant) \
                     and not isinstance(node.comparators[0], ast.Constant):
                 node.left, node.comparators = node.comparators[0], [node.left]
+            if len(node.ops) == 1 and isinstance(node.ops[0], (ast.Gt, ast.GtE)):
+                # one spelling for ordering tests: `a > b` is read as `b < a`, `a >= b` as `b <= a`
+                node.left, node.comparators = node.comparators[0], [node.left]
+                node.ops = [ast.Lt() if isinstance(node.ops[0], ast.Gt) else ast.LtE()]
             return node
-    return T().visit(tree)
+
+        def visit_UnaryOp(self, node):
+            # `not (a in b)` is `a not in b`, `not (a is b)` is `a is not b` (and the converse)
+            self.generic_visit(node)
+            if isinstance(node.op, ast.Not) and isinstance(node.operand, ast.Compare) and len(node.operand.ops) == 1 and type(node.operand.ops[0]) in _NEGATED_MEMBERSHIP:
+                node.operand.ops = [_NEGATED_MEMBERSHIP[type(node.operand.ops[0])]()]
+                return ast.copy_location(node.operand, node)
+            return node
+
+        def visit_AnnAssign(self, node):
+            # an annotated assignment of a plain name is an assignment; a bare annotation (`x: int`) does nothing at run time
+            self.generic_visit(node)
+            if isinstance(node.target, ast.Name) and node.simple:
+                if node.value is None:
+                    return ast.copy_location(ast.Pass(), node)
+                return ast.copy_location(ast.Assign(targets=[node.target], value=node.value), node)
+            if node.value is not None:
+                return ast.copy_location(ast.Assign(targets=[node.target], value=node.value), node)
+            return node
+
+        def visit_arg(self, node):
+            node.annotation = None
+            return node
+
+        def visit_FunctionDef(self, node):
+            self.generic_visit(node)
+            node.returns = None
+            return node
+    tree = T().visit(tree)
+    _canonical_module_aliases(tree)
+    return tree
+
+
+_NEGATED_MEMBERSHIP = {ast.In: ast.NotIn, ast.NotIn: ast.In, ast.Is: ast.IsNot, ast.IsNot: ast.Is}
+
+
+def _canonical_module_aliases(tree):
+    """`import struct as st` / `from . import core as core_m`: a module imported at module level under another name is given its own name back (every use renamed),
+    provided that name means nothing else anywhere in the file. Rules and hint tables then see `struct.calcsize`, `core.URI` however the import was spelled."""
+    cand = {}
+    for st in tree.body:
+        if isinstance(st, ast.Import):
+            for a in st.names:
+                if a.asname and "." not in a.name and a.asname != a.name:
+                    cand[a.asname] = (a, a.name)
+        elif isinstance(st, ast.ImportFrom) and st.level >= 1 and st.module is None:
+            for a in st.names:
+                if a.asname and a.asname != a.name:
+                    cand[a.asname] = (a, a.name)
+    if not cand:
+        return
+    used = set()
+    for n in ast.walk(tree):
+        if isinstance(n, ast.Name):
+            used.add(n.id)
+        elif isinstance(n, ast.arg):
+            used.add(n.arg)
+        elif isinstance(n, (ast.FunctionDef, ast.ClassDef)):
+            used.add(n.name)
+        elif isinstance(n, (ast.Global, ast.Nonlocal)):
+            used.update(n.names)
+        elif isinstance(n, ast.ExceptHandler) and n.name:
+            used.add(n.name)
+        elif isinstance(n, ast.alias):
+            if not any(n is a for a, _ in cand.values()):
+                used.add((n.asname or n.name).split(".")[0])
+    stored = {n.id for n in ast.walk(tree) if isinstance(n, ast.Name) and isinstance(n.ctx, (ast.Store, ast.Del))}
+    ren = {}
+    targets = [real for _, real in cand.values()]
+    for local, (a, real) in cand.items():
+        if real not in used and local not in stored and targets.count(real) == 1:
+            ren[local] = real
+            a.asname = None
+    if ren:
+        for n in ast.walk(tree):
+            if isinstance(n, ast.Name) and n.id in ren:
+                n.id = ren[n.id]
 
 
 def _as_load(expr):
@@ -116,6 +203,15 @@ def _as_load(expr):
         if hasattr(x, "ctx"):
             x.ctx = ast.Load()
     return e
+
+
+def _slot(st):
+    """the returned / raised expression of a return / cause-less raise statement"""
+    if isinstance(st, ast.Return):
+        return st.value
+    if isinstance(st, ast.Raise) and st.cause is None:
+        return st.exc
+    return None
 
 
 def inline_single_use_temporaries(tree):
@@ -153,10 +249,40 @@ def inline_single_use_temporaries(tree):
             elif isinstance(n, (ast.Global, ast.Nonlocal)):
                 for nm in n.names:
                     stores.setdefault(nm, []).extend([n, n])
+        # names all of whose reads are `return v` / `raise v` directly preceded by `v = <expr>`
+        pair_loads = {}
+        declared = {nm for nm, sts in stores.items() if any(isinstance(x, (ast.Global, ast.Nonlocal)) for x in sts)}
+        for body in scope_bodies(scope):
+            for a, b in zip(body, body[1:]):
+                if isinstance(a, ast.Assign) and len(a.targets) == 1 and isinstance(a.targets[0], ast.Name) and isinstance(b, (ast.Return, ast.Raise)) \
+                        and isinstance(_slot(b), ast.Name) and _slot(b).id == a.targets[0].id:
+                    pair_loads.setdefault(a.targets[0].id, []).append(_slot(b))
+                elif isinstance(a, ast.Assign) and len(a.targets) == 1 and isinstance(a.targets[0], ast.Name) and isinstance(b, ast.With) and len(b.items) == 1 \
+                        and isinstance(b.items[0].context_expr, ast.Name) and b.items[0].context_expr.id == a.targets[0].id and isinstance(a.value, ast.Attribute):
+                    pair_loads.setdefault(a.targets[0].id, []).append(b.items[0].context_expr)
+        pair_only = {nm for nm, ls in pair_loads.items() if nm not in declared and isinstance(scope, ast.FunctionDef)
+                     and {id(x) for x in loads.get(nm, [])} == {id(x) for x in ls}}
         for body in scope_bodies(scope):
             i = 0
             while i + 1 < len(body):
                 a, b = body[i], body[i + 1]
+                if isinstance(a, ast.Assign) and len(a.targets) == 1 and isinstance(a.targets[0], ast.Name) and isinstance(b, (ast.Return, ast.Raise)):
+                    # `v = <expr>` ; `return v` / `raise v`  (extract variable for the returned / raised value) is `return <expr>` / `raise <expr>` when nothing else
+                    # ever reads v: every read of v in this scope is such a return/raise directly after an assignment of v
+                    nm = a.targets[0].id
+                    if nm in pair_only and _slot(b) is not None and isinstance(_slot(b), ast.Name) and _slot(b).id == nm \
+                            and not any(isinstance(x, (ast.NamedExpr, ast.Yield, ast.YieldFrom, ast.Await)) for x in ast.walk(a.value)):
+                        setattr(b, "value" if isinstance(b, ast.Return) else "exc", a.value)
+                        del body[i]
+                        continue
+                if isinstance(a, ast.Assign) and len(a.targets) == 1 and isinstance(a.targets[0], ast.Name) and isinstance(b, ast.With) and len(b.items) == 1 \
+                        and isinstance(b.items[0].context_expr, ast.Name) and b.items[0].context_expr.id == a.targets[0].id and isinstance(a.value, ast.Attribute):
+                    # `cm = self.lock` ; `with cm:`  is  `with self.lock:`
+                    nm = a.targets[0].id
+                    if nm in pair_only:
+                        b.items[0].context_expr = a.value
+                        del body[i]
+                        continue
                 if isinstance(a, ast.Assign) and len(a.targets) == 1 and isinstance(a.targets[0], ast.Name) and isinstance(b, (ast.If, ast.While)) is True and isinstance(b, ast.If):
                     nm = a.targets[0].id
                     if len(stores.get(nm, [])) == 1 and len(loads.get(nm, [])) == 1 and not any(isinstance(x, (ast.NamedExpr, ast.Yield, ast.YieldFrom, ast.Await)) for x in ast.walk(a.value)):
@@ -239,11 +365,93 @@ class Program:
                 mod = ModuleInfo(modname, path, rel, src)
             except (SyntaxError, UnicodeDecodeError, ValueError) as x:
                 raise AnalysisError("cannot parse %s: %s" % (rel, x))
-            set_parents(mod.tree)
             self.modules[modname] = mod
         self.digest = h.hexdigest()
+        self._inline_explaining_constants()
+        for mod in self.modules.values():
+            set_parents(mod.tree)
         for mod in self.modules.values():
             self._index_module(mod)
+
+    def _inline_explaining_constants(self):
+        """Normal form: a module-level name bound once to an int/str/bytes literal that is not one of the library's own named constants (NAMED_CONSTANTS, the
+        vocabulary the rules speak) is an explaining constant ("no magic numbers"): every read of it - in its module, through a module alias, or imported by name -
+        is replaced by the literal, which is how the rules expect to see it."""
+        cands = {}
+        for mod in self.modules.values():
+            stores, args = {}, set()
+            for n in ast.walk(mod.tree):
+                if isinstance(n, ast.Name) and isinstance(n.ctx, (ast.Store, ast.Del)):
+                    stores[n.id] = stores.get(n.id, 0) + 1
+                elif isinstance(n, ast.arg):
+                    args.add(n.arg)
+                elif isinstance(n, (ast.Global, ast.Nonlocal)):
+                    for nm in n.names:
+                        stores[nm] = stores.get(nm, 0) + 2
+                elif isinstance(n, (ast.FunctionDef, ast.ClassDef)):
+                    stores[n.name] = stores.get(n.name, 0) + 2
+                elif isinstance(n, ast.ExceptHandler) and n.name:
+                    stores[n.name] = stores.get(n.name, 0) + 2
+                elif isinstance(n, ast.alias):
+                    nm = (n.asname or n.name).split(".")[0]
+                    stores[nm] = stores.get(nm, 0) + 2
+            c = {}
+            for st in mod.tree.body:
+                if isinstance(st, ast.Assign) and len(st.targets) == 1 and isinstance(st.targets[0], ast.Name) and isinstance(st.value, ast.Constant) \
+                        and type(st.value.value) in (int, str, bytes):
+                    nm = st.targets[0].id
+                    if nm not in NAMED_CONSTANTS and not (nm.startswith("__") and nm.endswith("__")) and stores.get(nm) == 1 and nm not in args:
+                        c[nm] = st.value
+            if c:
+                cands[mod.name] = c
+        if not cands:
+            return
+        import copy
+
+        class T(ast.NodeTransformer):
+            def __init__(self, names, aliases):
+                self.names, self.aliases = names, aliases
+
+            def visit_Name(self, node):
+                if isinstance(node.ctx, ast.Load) and node.id in self.names:
+                    return ast.copy_location(copy.deepcopy(self.names[node.id]), node)
+                return node
+
+            def visit_Attribute(self, node):
+                if isinstance(node.ctx, ast.Load) and isinstance(node.value, ast.Name) and node.value.id in self.aliases and node.attr in self.aliases[node.value.id]:
+                    return ast.copy_location(copy.deepcopy(self.aliases[node.value.id][node.attr]), node)
+                self.generic_visit(node)
+                return node
+        for mod in self.modules.values():
+            names = dict(cands.get(mod.name, {}))
+            aliases = {}
+            shadow = set()
+            for n in ast.walk(mod.tree):
+                if isinstance(n, ast.Name) and isinstance(n.ctx, (ast.Store, ast.Del)):
+                    shadow.add(n.id)
+                elif isinstance(n, ast.arg):
+                    shadow.add(n.arg)
+            for st in mod.tree.body:
+                if isinstance(st, ast.ImportFrom):
+                    base = self._resolve_relative(mod, st.level, st.module) if st.level else (st.module or "")
+                    for a in st.names:
+                        local = a.asname or a.name
+                        if base + "." + a.name in cands and local not in shadow:
+                            aliases[local] = cands[base + "." + a.name]
+                        elif base in cands and a.name in cands[base] and local not in shadow:
+                            names[local] = cands[base][a.name]
+                elif isinstance(st, ast.Import):
+                    for a in st.names:
+                        if a.asname and a.name in cands and a.asname not in shadow:
+                            aliases[a.asname] = cands[a.name]
+            if names or aliases:
+                own = set(cands.get(mod.name, {}))
+                keep = [st for st in mod.tree.body]
+                t = T(names, aliases)
+                for i, st in enumerate(keep):
+                    if isinstance(st, ast.Assign) and len(st.targets) == 1 and isinstance(st.targets[0], ast.Name) and st.targets[0].id in own:
+                        continue
+                    mod.tree.body[i] = t.visit(st)
 
     def _resolve_relative(self, mod, level, name):
         base = mod.name.split(".")
@@ -280,8 +488,8 @@ class Program:
                         table[local] = ("internal", full)
                     else:
                         table[local] = ("external", full)
-            elif isinstance(st, (ast.Try, ast.If)):
-                # try: import x except ImportError: ...   /  if cond: import
+            elif isinstance(st, (ast.Try, ast.If, ast.With)):
+                # try: import x except ImportError: ...   /  if cond: import   /  with suppress(ImportError): import
                 for body in (getattr(st, "body", []), getattr(st, "orelse", []), getattr(st, "finalbody", [])):
                     self._index_imports(mod, body, table)
                 for hnd in getattr(st, "handlers", []):
